@@ -54,7 +54,8 @@ static uint64_t CHT(void) { return nondet_u64(); }
 #    include <aws/common/task_scheduler.h>
 static unsigned long n_fail, n_cases, n_checks;
 static const char *cur_desc(void);
-#    define CHK(c, msg) do { n_checks++; if (!(c)) { if (n_fail++ < 10) printf("FAIL %s [%s]\n", msg, cur_desc()); } } while (0)
+static void fail_now(const char *msg);
+#    define CHK(c, msg) do { n_checks++; if (!(c)) fail_now(msg); } while (0)
 static size_t CH(size_t n);
 static uint64_t CHT(void);
 static unsigned SEQ_STEPS = VERIF_SEQ_STEPS, SEQ_BUDGET = VERIF_SEQ_BUDGET;
@@ -172,8 +173,8 @@ void aws_fatal_assert(const char *cond_str, const char *file, int line) {
 }
 #else
 void aws_fatal_assert(const char *cond_str, const char *file, int line) {
-    printf("FAIL aws_fatal_assert %s %s:%d [%s]\n", cond_str, file, line, cur_desc());
-    exit(1);
+    (void)file; (void)line;
+    fail_now(cond_str);
 }
 #endif
 void *aws_mem_acquire(struct aws_allocator *a, size_t n) { (void)a; void *p = malloc(n);
@@ -289,6 +290,8 @@ static void scenario(void) {
     /* scripted shape (CBMC): the operations and their tasks are fixed, times / heap refusals / re-entrant actions symbolic */
 #    define OPN(j) { if (!m_pend[j]) do_schedule_now(j); check_has_tasks(); }
 #    define OPF(j) { if (!m_pend[j]) { uint64_t t = CHT(); bool r = SEQ_REFUSE(); do_schedule_future(j, t, r); } check_has_tasks(); }
+#    define OPG(j) { if (!m_pend[j]) { uint64_t t = CHT(); do_schedule_future(j, t, true); } check_has_tasks(); } /* heap refuses: overflow list */
+#    define OPH(j) { if (!m_pend[j]) { uint64_t t = CHT(); do_schedule_future(j, t, false); } check_has_tasks(); } /* heap accepts */
 #    define OPC(j) { if (m_pend[j]) do_cancel(j); check_has_tasks(); }
 #    define OPR { do_run_all(CHT()); check_has_tasks(); }
     VERIF_SEQ_SCRIPT
@@ -348,7 +351,20 @@ static bool next_choice(void) {
     }
     return false;
 }
+/* fail fast: a broken scheduler may loop forever in clean_up or crash; the first violated check ends the run */
+static void fail_now(const char *msg) {
+    printf("FAIL %s [choices %s]\nCASES %lu\n", msg, cur_desc(), n_cases + 1);
+    fflush(stdout);
+    _exit(1);
+}
+#    include <signal.h>
+#    include <unistd.h>
+static void on_signal(int sig) {
+    fail_now(sig == SIGALRM ? "watchdog: scenario does not terminate (clean_up / run_all loops forever)" : "crash (signal) inside the library");
+}
 int main(int argc, char **argv) {
+    signal(SIGALRM, on_signal); signal(SIGSEGV, on_signal); signal(SIGBUS, on_signal); signal(SIGABRT, on_signal); signal(SIGFPE, on_signal);
+    alarm(30);
     /* args: exh STEPS BUDGET NTIMES | rnd STEPS BUDGET COUNT SEED */
     const char *mode = argc > 1 ? argv[1] : "exh";
     SEQ_STEPS = argc > 2 ? (unsigned)atoi(argv[2]) : VERIF_SEQ_STEPS;
@@ -358,11 +374,11 @@ int main(int argc, char **argv) {
         unsigned long count = argc > 4 ? strtoul(argv[4], NULL, 10) : 100000;
         rng = 0x9E3779B97F4A7C15ull ^ (argc > 5 ? strtoull(argv[5], NULL, 10) : 1);
         rnd_mode = true; n_tv = 6;
-        for (unsigned long k = 0; k < count; k++) { ch_pos = 0; ch_len = 0; scenario(); n_cases++; }
+        for (unsigned long k = 0; k < count; k++) { ch_pos = 0; ch_len = 0; scenario(); n_cases++; if ((n_cases & 0xffff) == 0) alarm(30); }
     } else {
         n_tv = argc > 4 ? (unsigned)atoi(argv[4]) : 4;
         ch_len = 0;
-        do { ch_pos = 0; scenario(); n_cases++; } while (next_choice());
+        do { ch_pos = 0; scenario(); n_cases++; if ((n_cases & 0xffff) == 0) alarm(30); } while (next_choice());
     }
     printf("CASES %lu\nchecks %lu\n", n_cases, n_checks);
     return n_fail ? 1 : 0;
